@@ -352,4 +352,14 @@ func runC05(e *Engine, r *Report) {
 		r.check(okO && !hasRange, "DET-session", "lrusession.save walks the sessions in cache order (OrderedDo), not map order", e.pos(sv.Pos()),
 			"identical tables serialise identically on every replica", "session serialisation no longer uses the ordered traversal")
 	}
+	// the batch classification flags are for-all accumulators (generic.go)
+	ruleLoopAcc(e, r, 2, "internal/rsm")
+	// ---- a snapshot's session table replaces the live one
+	if ld := r.need("(*internal/rsm.lrusession).load"); ld != nil {
+		add := e.Func("(*internal/rsm.lrusession).addSessionLocked")
+		ruleRestoreReplaces(e, r, "MPT-restore-replaces", ld, r.needField("internal/rsm", "lrusession", "sessions"), func(in ssa.Instruction) bool {
+			c, ok := in.(*ssa.Call)
+			return ok && add != nil && e.CallsTo(c, add)
+		})
+	}
 }
